@@ -26,7 +26,7 @@ type c08Sample struct {
 func init() {
 	register(&Prop{
 		ID:   "C08",
-		Rule: "each run opens 2..32 (64 in thorough) simultaneous connections with distinct position-coded streams through ONE shared configuration: routes selected by the first byte lead to a shared throttle (total limiter) + recorder, tee + echo, consume + subroute + recorder, the proxy handler with a drawn selection policy over shared upstreams, and the real openvpn matcher (shared digest cache); buffers come from the deterministic poisoning pool. Oracle per connection: every handler/upstream/branch/echo sees exactly that connection's own stream (a foreign tag or poison is reported with both connections), and the route taken is the one its own bytes select. The same worlds (plus the listener-wrapper, load-balancing, UDP and relay worlds) are also run in a -race build under the same seeded scheduler, whose hand-offs are transparent to the detector; reports with both stacks in repository code are violations. Non-trivial: >=2 connections overlapped in time; distinct: event-log hashes.",
+		Rule: "each run opens 2..32 (64 in thorough) simultaneous connections with distinct position-coded streams through ONE shared configuration: routes selected by the first byte lead to a shared throttle (total limiter) + recorder, tee + echo, consume + subroute + recorder, a subroute that falls through to the handler after it, the proxy handler with a drawn selection policy over shared upstreams, and the real openvpn matcher (shared digest cache); buffers come from the deterministic poisoning pool. Oracle per connection: every handler/upstream/branch/echo sees exactly that connection's own stream (a foreign tag or poison is reported with both connections), and the route taken is the one its own bytes select. The same worlds (plus the listener-wrapper, load-balancing, UDP and relay worlds) are also run in a -race build under the same seeded scheduler, whose hand-offs are transparent to the detector; reports with both stacks in repository code are violations. Non-trivial: >=2 connections overlapped in time; distinct: event-log hashes.",
 		Run:  runC08,
 		MaxSteps: 80000,
 	})
@@ -109,12 +109,20 @@ func runC08(t *testing.T, e *worlds.Env, tier string) (bool, any) {
 			panic(err)
 		}
 		recV := HSpec{Kind: "recorder", Name: "recV", MaxBuf: 4096}
+		// a subroute whose inner route is not terminal: the connection falls through it to the
+		// handler after the subroute (the continuation is per connection)
+		conEk := tp.Pick("consume-e", 1, 4, 11)
+		subE := HSpec{Kind: "subroute", Name: "subE", Sub: &RLSpec{Routes: []RSpec{{Handlers: []HSpec{{Kind: "consume", Name: "conE", K: conEk}}}}}}
+		recE := HSpec{Kind: "recorder", Name: "recE", MaxBuf: 2048}
 		routes := layer4.RouteList{
 			layer4.VerifNewRoute([]layer4.MatcherSet{{first('A')}}, []layer4.NextHandler{thr, recA}),
 			layer4.VerifNewRoute([]layer4.MatcherSet{{first('B')}}, []layer4.NextHandler{b.Handler(&markB, sig), b.Handler(&teeSpec, sig), b.Handler(&echoMark, sig), b.Handler(&echoH, sig)}),
 			layer4.VerifNewRoute([]layer4.MatcherSet{{first('C')}}, []layer4.NextHandler{b.Handler(&conC, sig), b.Handler(&subC, sig)}),
 			layer4.VerifNewRoute([]layer4.MatcherSet{{first('D')}}, []layer4.NextHandler{ph}),
 			layer4.VerifNewRoute([]layer4.MatcherSet{{ovMs[0].M}}, []layer4.NextHandler{b.Handler(&recV, sig)}),
+			// the subroute ends its route; the stream as it left it (next byte 'e') selects the next route
+			layer4.VerifNewRoute([]layer4.MatcherSet{{first('E')}}, []layer4.NextHandler{b.Handler(&subE, sig)}),
+			layer4.VerifNewRoute([]layer4.MatcherSet{{first('e')}}, []layer4.NextHandler{b.Handler(&recE, sig)}),
 		}
 		w = e.NewTCPWorld(routes, 0)
 		maxN := 32
@@ -123,7 +131,7 @@ func runC08(t *testing.T, e *worlds.Env, tier string) (bool, any) {
 		}
 		n := 2 + tp.LogRange(0, maxN-2, "nconn")
 		sample.Conns = n
-		classes := []byte{'A', 'B', 'C', 'D', 'V', 'Z'}
+		classes := []byte{'A', 'B', 'C', 'D', 'V', 'Z', 'E'}
 		for i := 1; i <= n; i++ {
 			cls := classes[tp.Choose(len(classes), "class")]
 			plan := &worlds.ClientPlan{ID: i, Addr: worlds.ClientAddr(i), End: worlds.EndHalfClose}
@@ -135,6 +143,9 @@ func runC08(t *testing.T, e *worlds.Env, tier string) (bool, any) {
 			} else {
 				m.App = worlds.Stream(m.Key, ln)
 				m.App[0] = cls
+				if cls == 'E' {
+					m.App[conEk] = 'e'
+				}
 			}
 			plan.App = m.App
 			plan.Chunks = e.MakeChunks(len(m.App), 3*time.Millisecond)
@@ -192,13 +203,13 @@ func runC08(t *testing.T, e *worlds.Env, tier string) (bool, any) {
 			for _, hc := range m.HandlerCalls {
 				ran[hc.Handler] = true
 			}
-			want := map[byte]string{'A': "recA", 'B': "echoB", 'C': "conC", 'V': "recV"}[c.class]
+			want := map[byte]string{'A': "recA", 'B': "echoB", 'C': "conC", 'V': "recV", 'E': "recE"}[c.class]
 			connected := c.client.End != nil && c.client.WriteErr == nil
 			if !connected {
 				continue
 			}
 			for h := range ran {
-				ok := h == want || (c.class == 'B' && (h == "teemarkB" || h == "branchB")) || (c.class == 'C' && h == "recC")
+				ok := h == want || (c.class == 'B' && (h == "teemarkB" || h == "branchB")) || (c.class == 'C' && h == "recC") || (c.class == 'E' && h == "conE")
 				if !ok {
 					fail("misrouted", "conn %d (first byte %q) was handled by %s; alone it is handled by %q", m.ID, c.class, h, want)
 					return
